@@ -1,10 +1,11 @@
+#![recursion_limit = "512"]
 //! History driver for C07 / C08 / C12 / C13: sequences of market operations on the harness-owned
 //! deterministic market (`h_model::vmarket`), executed by the repository's generic model code
 //! instantiated in the small world (`u64`, DECIMALS = 1 or 2), one ndjson event per operation with
 //! the full projected state.
 //!
 //! modes:
-//!   random --seed S --n EVENTS --runs RUNS [--d 1|2] --out trace.ndjson [--ops ops.ndjson]
+//!   random --seed S --n EVENTS --runs RUNS [--d 1|2] [--vi K] --out trace.ndjson [--ops ops.ndjson]
 //!   replay --in ops.ndjson --out trace.ndjson          (operation scripts, e.g. printed by TLC)
 //!   grid   --out trace.ndjson [--max 40]               (funding-rate probes over the domain of MC_Funding)
 //!
@@ -24,8 +25,9 @@ use gmsol_model::{
         FeeParams, PositionParams, PriceImpactParams,
     },
     price::{Price, Prices},
-    BorrowingFeeMarketExt, BorrowingFeeMarketMutExt, ClockKind, LiquidityMarketMutExt, MarketAction,
-    PerpMarketMutExt, PositionExt, PositionImpactMarketMutExt, PositionMutExt, SwapMarketMutExt,
+    BorrowingFeeMarketExt, BorrowingFeeMarketMutExt, ClockKind, LiquidityMarketExt, LiquidityMarketMutExt,
+    MarketAction, PerpMarketMutExt, PnlFactorKind, PositionExt, PositionImpactMarketMutExt, PositionMutExt,
+    SwapMarketMutExt,
 };
 use h_model::{
     util::{guarded, quiet_panics, Args, Rng, Sink},
@@ -37,6 +39,7 @@ const NPOS: usize = 8;
 /// hypothetical clock advance used for the "pending borrowing fees for every hypothetical Tick" probe
 const HYPO_TICK: u64 = 7;
 const LIM: i64 = 2_000_000_000;
+const MAX_POOL_VALUE_FOR_DEPOSIT: u64 = 10_000_000;
 
 fn slot_long(i: usize) -> bool {
     i % 4 < 2
@@ -195,6 +198,31 @@ impl Cfg {
         })
     }
 
+    /// Every configuration value the market reads (logged as `cx`; the composed specification
+    /// specs/Exchange.tla takes its whole configuration from this record).
+    fn json_full(&self, vi: bool) -> Value {
+        json!({
+            "f_exp": self.f_exp, "f_factor": self.f_factor, "f_max": self.f_max, "f_min": self.f_min,
+            "f_inc": self.f_inc, "f_dec": self.f_dec, "f_stable": self.f_stable, "f_decthr": self.f_decthr,
+            "b_recv": self.b_recv, "b_factor": [self.b_factor_l, self.b_factor_s], "b_exp": [self.b_exp_l, self.b_exp_s],
+            "b_skip": self.b_skip, "k_opt": self.k_opt, "k_base": self.k_base, "k_above": self.k_above,
+            "o_pos": self.o_pos, "o_neg": self.o_neg, "o_recv": self.o_recv,
+            "s_pos": self.s_pos, "s_neg": self.s_neg, "s_recv": self.s_recv,
+            "l_factor": self.l_factor, "l_recv": self.l_recv,
+            "pi_exp": self.pi_exp, "pi_pos": self.pi_pos, "pi_neg": self.pi_neg,
+            "si_exp": self.si_exp, "si_pos": self.si_pos, "si_neg": self.si_neg,
+            "dist_factor": self.dist_factor, "dist_min": self.dist_min,
+            "min_size": self.min_size, "min_coll_value": self.min_coll_value, "min_coll_factor": self.min_coll_factor,
+            "max_pos_impact": self.max_pos_impact, "max_neg_impact": self.max_neg_impact,
+            "max_liq_impact": self.max_liq_impact, "mcf_oi": self.mcf_oi,
+            "reserve": self.reserve, "oi_reserve": self.oi_reserve, "max_oi": self.max_oi, "ignore_oi": self.ignore_oi,
+            "pnl_deposit": self.pnl_deposit, "pnl_withdrawal": self.pnl_withdrawal, "pnl_trader": self.pnl_trader,
+            "pnl_adl": self.pnl_trader, "min_pnl_adl": 0,
+            "max_pool_amount": self.max_pool_amount, "max_pool_value": MAX_POOL_VALUE_FOR_DEPOSIT,
+            "adj": self.adj, "divisor": self.divisor, "vi": vi,
+        })
+    }
+
     fn market_config<const D: u8>(&self) -> TestMarketConfig<u64, D> {
         let kink = BorrowingFeeKinkModelParamsForOneSide::builder()
             .optimal_usage_factor(self.k_opt)
@@ -263,7 +291,7 @@ impl Cfg {
             },
             min_pnl_factor_after_adl: 0,
             max_pool_amount: self.max_pool_amount,
-            max_pool_value_for_deposit: 10_000_000,
+            max_pool_value_for_deposit: MAX_POOL_VALUE_FOR_DEPOSIT,
             max_open_interest: self.max_oi,
             min_collateral_factor_for_oi: self.mcf_oi,
             ignore_open_interest_for_usage_factor: self.ignore_oi,
@@ -283,6 +311,8 @@ struct World<const D: u8> {
     run: u64,
     step: u64,
     fresh: bool,
+    /// the market has virtual inventories (for swaps and for positions)
+    vi: bool,
 }
 
 fn pool2(p: &TestPool<u64>) -> Value {
@@ -297,7 +327,15 @@ fn clk<const D: u8>(m: &TestMarket<u64, D>, k: ClockKind) -> i64 {
 
 impl<const D: u8> World<D> {
     fn new(cfg: Cfg, run: u64) -> Self {
-        let m = TestMarket::<u64, D>::new(cfg.divisor, cfg.adj, cfg.market_config::<D>());
+        Self::new_vi(cfg, run, false)
+    }
+
+    fn new_vi(cfg: Cfg, run: u64, vi: bool) -> Self {
+        let mut m = TestMarket::<u64, D>::new(cfg.divisor, cfg.adj, cfg.market_config::<D>());
+        if vi {
+            m.vi_swaps = Some(TestPool::default());
+            m.vi_positions = Some(TestPool::default());
+        }
         let mut ps = [TestPosition::<u64, D>::default(); NPOS];
         for (i, p) in ps.iter_mut().enumerate() {
             p.is_long = slot_long(i);
@@ -311,11 +349,46 @@ impl<const D: u8> World<D> {
             run,
             step: 0,
             fresh: true,
+            vi,
         }
     }
 
     fn market_json(&self) -> Value {
-        let m = &self.m;
+        market_json_of(&self.m)
+    }
+
+    /// pool values the real code computes on the current state (conformance of the composed
+    /// specification's pool value incl. pending borrowing fees / pending impact distribution)
+    fn pool_value_probe(&self) -> Value {
+        let prices = self.px.prices();
+        let one = |kind: PnlFactorKind, maximize: bool| match guarded(|| self.m.pool_value(&prices, kind, maximize)) {
+            Ok(Ok(v)) => (true, v),
+            _ => (false, 0),
+        };
+        let (dok, d) = one(PnlFactorKind::MaxAfterDeposit, true);
+        let (wok, w) = one(PnlFactorKind::MaxAfterWithdrawal, false);
+        json!({"dep_ok": dok, "dep": d, "wd_ok": wok, "wd": w})
+    }
+}
+
+fn vi_json<const D: u8>(m: &TestMarket<u64, D>) -> Value {
+    let one = |p: &Option<TestPool<u64>>| match p {
+        Some(p) => (true, [p.long_amount, p.short_amount]),
+        None => (false, [0, 0]),
+    };
+    let (s_on, s) = one(&m.vi_swaps);
+    let (p_on, p) = one(&m.vi_positions);
+    json!({"s_on": s_on, "s": s, "p_on": p_on, "p": p})
+}
+
+fn pos_core_json<const D: u8>(p: &TestPosition<u64, D>) -> Value {
+    json!({"long": p.is_long, "cl": p.is_collateral_token_long,
+           "size": p.size_in_usd, "tok": p.size_in_tokens, "col": p.collateral_token_amount,
+           "bf": p.borrowing_factor, "fps": p.funding_fee_amount_per_size,
+           "cfps": [p.claimable_funding_fee_amount_per_size.0, p.claimable_funding_fee_amount_per_size.1]})
+}
+
+fn market_json_of<const D: u8>(m: &TestMarket<u64, D>) -> Value {
         json!({
             "liq": pool2(&m.primary), "simp": pool2(&m.swap_impact), "fee": pool2(&m.fee),
             "oi": pool22(&m.open_interest), "oit": pool22(&m.open_interest_in_tokens),
@@ -327,8 +400,9 @@ impl<const D: u8> World<D> {
             "ck_d": clk(m, ClockKind::PriceImpactDistribution),
             "ffps": m.funding_factor_per_second,
         })
-    }
+}
 
+impl<const D: u8> World<D> {
     fn positions_json(&mut self) -> Value {
         let mut out = Vec::new();
         for i in 0..NPOS {
@@ -382,6 +456,20 @@ fn zero_report() -> Map<String, Value> {
         "full": false,
     });
     v.as_object().unwrap().clone()
+}
+
+/// Extended report (`rx`): every report field the precise actions of specs/Exchange.tla predict.
+/// swap: impact, impactAmt, fpl, frl (fees on the input token); deposit / withdraw: impact, fees per token;
+/// increase / decrease: the report record of specs/Position.tla; distribute: d, next; all: dur.
+fn zero_rx() -> Map<String, Value> {
+    json!({"impact": 0, "impactAmt": 0, "fpl": 0, "frl": 0, "fps": 0, "frs": 0,
+           "imp": 0, "impAmt": 0, "diff": 0, "xprice": 0, "dtok": 0, "dcoll": 0, "wd": 0, "dsize": 0,
+           "pnl": 0, "unc": 0, "step": "", "remove": false, "out": 0, "sec": 0, "clL": 0, "clS": 0,
+           "hold": 0, "uo": 0, "us": 0, "feeCost": 0, "fund": 0,
+           "d": 0, "next": 0, "dur": 0, "sw1": "", "sw2": ""})
+        .as_object()
+        .unwrap()
+        .clone()
 }
 
 fn zero_partial() -> Value {
@@ -441,9 +529,12 @@ struct Outcome {
     panic: bool,
     err: String,
     r: Map<String, Value>,
+    rx: Map<String, Value>,
     f: Value,
     cfg_override: Option<Value>,
     pp: Value,
+    /// the partial state a failed (Err) operation leaves behind, before the driver discards it
+    part: Option<Value>,
 }
 
 /// (dt, L, S, Ok((rate, longs_pay, next))) computed by the real `next_funding_factor_per_second`
@@ -502,7 +593,8 @@ impl<const D: u8> World<D> {
         self.m.callbacks.clear();
         let snap_m = self.m.clone();
         let snap_ps = self.ps;
-        let mut out = Outcome { ok: false, panic: false, err: String::new(), r: zero_report(), f: zero_funding(), cfg_override: None, pp: zero_partial() };
+        let mut out = Outcome { ok: false, panic: false, err: String::new(), r: zero_report(), rx: zero_rx(), f: zero_funding(), cfg_override: None, pp: zero_partial(), part: None };
+        let mut part_pos: Option<TestPosition<u64, D>> = None;
         let mut pos_idx = 0usize;
 
         macro_rules! settle {
@@ -511,7 +603,7 @@ impl<const D: u8> World<D> {
                     Ok(Ok(rep)) => {
                         out.ok = true;
                         #[allow(clippy::redundant_closure_call)]
-                        ($okf)(&mut out.r, rep);
+                        ($okf)(&mut out.r, &mut out.rx, rep);
                     }
                     Ok(Err(e)) => {
                         out.err = format!("{e}");
@@ -531,24 +623,37 @@ impl<const D: u8> World<D> {
             "deposit" => {
                 let (l, s) = (gu(op, "l"), gu(op, "s"));
                 let res = guarded(|| self.m.deposit(l, s, prices).and_then(|a| a.execute()));
-                settle!(res, |r: &mut Map<String, Value>, rep: gmsol_model::action::deposit::DepositReport<u64, i64>| {
+                settle!(res, |r: &mut Map<String, Value>, x: &mut Map<String, Value>, rep: gmsol_model::action::deposit::DepositReport<u64, i64>| {
                     r.insert("in".into(), json!([l, s]));
                     r.insert("minted".into(), json!(*rep.minted()));
+                    x.insert("impact".into(), json!(*rep.price_impact()));
+                    x.insert("fpl".into(), json!(*rep.long_token_fees().fee_amount_for_pool()));
+                    x.insert("frl".into(), json!(*rep.long_token_fees().fee_amount_for_receiver()));
+                    x.insert("fps".into(), json!(*rep.short_token_fees().fee_amount_for_pool()));
+                    x.insert("frs".into(), json!(*rep.short_token_fees().fee_amount_for_receiver()));
                 });
             }
             "withdraw" => {
                 let mt = gu(op, "mt");
                 let res = guarded(|| self.m.withdraw(mt, prices).and_then(|a| a.execute()));
-                settle!(res, |r: &mut Map<String, Value>, rep: gmsol_model::action::withdraw::WithdrawReport<u64>| {
+                settle!(res, |r: &mut Map<String, Value>, x: &mut Map<String, Value>, rep: gmsol_model::action::withdraw::WithdrawReport<u64>| {
                     r.insert("wd".into(), json!([*rep.long_token_output(), *rep.short_token_output()]));
+                    x.insert("fpl".into(), json!(*rep.long_token_fees().fee_amount_for_pool()));
+                    x.insert("frl".into(), json!(*rep.long_token_fees().fee_amount_for_receiver()));
+                    x.insert("fps".into(), json!(*rep.short_token_fees().fee_amount_for_pool()));
+                    x.insert("frs".into(), json!(*rep.short_token_fees().fee_amount_for_receiver()));
                 });
             }
             "swap" => {
                 let (long_in, amt) = (gb(op, "long_in"), gu(op, "amt"));
                 let res = guarded(|| self.m.swap(long_in, amt, prices).and_then(|a| a.execute()));
-                settle!(res, |r: &mut Map<String, Value>, rep: gmsol_model::action::swap::SwapReport<u64, i64>| {
+                settle!(res, |r: &mut Map<String, Value>, x: &mut Map<String, Value>, rep: gmsol_model::action::swap::SwapReport<u64, i64>| {
                     r.insert("in".into(), if long_in { json!([amt, 0]) } else { json!([0, amt]) });
                     r.insert("sw_out".into(), json!(*rep.token_out_amount()));
+                    x.insert("impact".into(), json!(*rep.price_impact()));
+                    x.insert("impactAmt".into(), json!(*rep.price_impact_amount()));
+                    x.insert("fpl".into(), json!(*rep.token_in_fees().fee_amount_for_pool()));
+                    x.insert("frl".into(), json!(*rep.token_in_fees().fee_amount_for_receiver()));
                 });
             }
             "increase" => {
@@ -571,11 +676,23 @@ impl<const D: u8> World<D> {
                     }
                     Ok((mut p, Err(e))) => {
                         out.pp = partial_probe(&mut p, &mut self.m);
+                        part_pos = Some(p);
                         Ok(Err(e))
                     }
                     Err(()) => Err(()),
                 };
-                settle!(res, |r: &mut Map<String, Value>, rep: gmsol_model::action::increase_position::IncreasePositionReport<u64, i64>| {
+                settle!(res, |r: &mut Map<String, Value>, x: &mut Map<String, Value>, rep: gmsol_model::action::increase_position::IncreasePositionReport<u64, i64>| {
+                    let ex = rep.execution();
+                    x.insert("imp".into(), json!(*ex.price_impact_value()));
+                    x.insert("impAmt".into(), json!(*ex.price_impact_amount()));
+                    x.insert("dtok".into(), json!(*ex.size_delta_in_tokens()));
+                    x.insert("xprice".into(), json!(*ex.execution_price()));
+                    x.insert("dcoll".into(), json!(*rep.collateral_delta_amount()));
+                    x.insert("dsize".into(), json!(size));
+                    x.insert("feeCost".into(), json!(rep.fees().total_cost_excluding_funding().unwrap_or(u64::MAX)));
+                    x.insert("fund".into(), json!(*rep.fees().funding_fees().amount()));
+                    x.insert("clL".into(), json!(*rep.claimable_funding_amounts().0));
+                    x.insert("clS".into(), json!(*rep.claimable_funding_amounts().1));
                     r.insert("in".into(), if cl { json!([coll, 0]) } else { json!([0, coll]) });
                     let (a, b) = rep.claimable_funding_amounts();
                     r.insert("cf".into(), json!([*a, *b]));
@@ -618,11 +735,35 @@ impl<const D: u8> World<D> {
                     }
                     Ok((mut p, Err(e))) => {
                         out.pp = partial_probe(&mut p, &mut self.m);
+                        part_pos = Some(p);
                         Ok(Err(e))
                     }
                     Err(()) => Err(()),
                 };
-                settle!(res, |r: &mut Map<String, Value>, (rep, full): (Box<gmsol_model::action::decrease_position::DecreasePositionReport<u64, i64>>, bool)| {
+                settle!(res, |r: &mut Map<String, Value>, x: &mut Map<String, Value>, (rep, full): (Box<gmsol_model::action::decrease_position::DecreasePositionReport<u64, i64>>, bool)| {
+                    {
+                        let hold = rep.claimable_collateral_for_holding();
+                        let user = rep.claimable_collateral_for_user();
+                        x.insert("imp".into(), json!(*rep.price_impact_value()));
+                        x.insert("diff".into(), json!(*rep.price_impact_diff()));
+                        x.insert("xprice".into(), json!(*rep.execution_price()));
+                        x.insert("dtok".into(), json!(*rep.size_delta_in_tokens()));
+                        x.insert("wd".into(), json!(*rep.withdrawable_collateral_amount()));
+                        x.insert("dsize".into(), json!(*rep.size_delta_usd()));
+                        x.insert("pnl".into(), json!(*rep.pnl().pnl()));
+                        x.insert("unc".into(), json!(*rep.pnl().uncapped_pnl()));
+                        x.insert("step".into(), json!(rep.insolvent_close_step().map(|s| format!("{s:?}")).unwrap_or_default()));
+                        x.insert("remove".into(), json!(rep.should_remove()));
+                        x.insert("out".into(), json!(*rep.output_amount()));
+                        x.insert("sec".into(), json!(*rep.secondary_output_amount()));
+                        x.insert("clL".into(), json!(*rep.claimable_funding_amounts().0));
+                        x.insert("clS".into(), json!(*rep.claimable_funding_amounts().1));
+                        x.insert("hold".into(), json!(*hold.output_token_amount() + *hold.secondary_output_token_amount()));
+                        x.insert("uo".into(), json!(*user.output_token_amount()));
+                        x.insert("us".into(), json!(*user.secondary_output_token_amount()));
+                        x.insert("feeCost".into(), json!(rep.fees().total_cost_excluding_funding().unwrap_or(u64::MAX)));
+                        x.insert("fund".into(), json!(*rep.fees().funding_fees().amount()));
+                    }
                     r.insert("out".into(), json!(*rep.output_amount()));
                     r.insert("out2".into(), json!(*rep.secondary_output_amount()));
                     r.insert("out_long".into(), json!(rep.is_output_token_long()));
@@ -650,15 +791,23 @@ impl<const D: u8> World<D> {
                 out.f = funding_tuple(&mut self.m, &prices);
                 self.m.callbacks.clear();
                 let res = guarded(|| self.m.update_funding(&prices).and_then(|a| a.execute()));
-                settle!(res, |_r: &mut Map<String, Value>, _rep| {});
+                settle!(res, |_r: &mut Map<String, Value>, x: &mut Map<String, Value>, rep: gmsol_model::action::update_funding_state::UpdateFundingReport<u64, i64>| {
+                    x.insert("dur".into(), json!(rep.duration_in_seconds()));
+                });
             }
             "update_borrowing" => {
                 let res = guarded(|| self.m.update_borrowing(&prices).and_then(|a| a.execute()));
-                settle!(res, |_r: &mut Map<String, Value>, _rep| {});
+                settle!(res, |_r: &mut Map<String, Value>, x: &mut Map<String, Value>, rep: gmsol_model::action::update_borrowing_state::UpdateBorrowingReport<u64>| {
+                    x.insert("dur".into(), json!(rep.duration_in_seconds()));
+                });
             }
             "distribute" => {
                 let res = guarded(|| self.m.distribute_position_impact().and_then(|a| a.execute()));
-                settle!(res, |_r: &mut Map<String, Value>, _rep| {});
+                settle!(res, |_r: &mut Map<String, Value>, x: &mut Map<String, Value>, rep: gmsol_model::action::distribute_position_impact::DistributePositionImpactReport<u64>| {
+                    x.insert("dur".into(), json!(rep.duration_in_seconds()));
+                    x.insert("d".into(), json!(*rep.distribution_amount()));
+                    x.insert("next".into(), json!(*rep.next_position_impact_pool_amount()));
+                });
             }
             "probe_funding" => {
                 // state injection on a scratch copy: open interest, stored rate and funding parameters
@@ -706,6 +855,19 @@ impl<const D: u8> World<D> {
             }
         }
         let cbs: Vec<String> = if out.ok { self.m.callbacks.clone() } else { Vec::new() };
+        // swaps inside a decrease, as reported through on_swapped / on_swap_error
+        for c in &cbs {
+            if c.starts_with("swapped:") || c.starts_with("swap_error:") {
+                let ok = c.starts_with("swapped:");
+                let key = if c.contains("PnlTokenToCollateralToken") { "sw1" } else { "sw2" };
+                out.rx.insert(key.into(), json!(if ok { "ok" } else { "err" }));
+            }
+        }
+        if !out.ok && !out.panic && !out.err.is_empty() {
+            let slot = pos_idx.clamp(1, NPOS) - 1;
+            let p = part_pos.unwrap_or(self.ps[slot]);
+            out.part = Some(json!({"has": true, "m": market_json_of(&self.m), "vi": vi_json(&self.m), "p": pos_core_json(&p)}));
+        }
         if !out.ok {
             // the programs discard a failed action's partial effects (revertible market / failed transaction)
             self.m = snap_m;
@@ -722,8 +884,12 @@ impl<const D: u8> World<D> {
             "r": Value::Object(out.r), "f": out.f, "ncb": ncb, "cbs": cbs.join(";"),
             "c": out.cfg_override.unwrap_or_else(|| self.cfg.json()),
             "b": self.borrowing_probe(), "pp": out.pp,
+            // additive fields for the composed specification (specs/Exchange.tla, Trace_Exchange)
+            "cx": self.cfg.json_full(self.vi), "vi": vi_json(&self.m), "rx": Value::Object(out.rx),
+            "pv": self.pool_value_probe(),
+            "part": out.part.unwrap_or_else(|| json!({"has": false, "m": self.market_json(), "vi": vi_json(&self.m),
+                                                      "p": pos_core_json(&self.ps[pos_idx.clamp(1, NPOS) - 1])})),
         });
-        let _ = pos_idx;
         self.fresh = false;
         Some(ev)
     }
@@ -840,6 +1006,7 @@ fn run_random<const D: u8>(a: &Args) {
     let n = a.num("n", 3000);
     let runs = a.num("runs", 60).max(1);
     let per_run = (n / runs).max(8);
+    let vi_every = a.num("vi", 0);
     let mut sink = Sink::create(&a.str("out", "trace.ndjson"));
     let mut ops_sink = a.get("ops").map(Sink::create);
     let mut rng = Rng::new(seed ^ ((D as u64) << 40));
@@ -851,8 +1018,11 @@ fn run_random<const D: u8>(a: &Args) {
             rng.below(4),
             rng.below(4),
         );
-        let reset = json!({"op": "reset", "d": D, "fp": fp, "bp": bp, "fe": fe, "ip": ip});
-        let mut w = World::<D>::new(Cfg::presets(D, fp, bp, fe, ip), run + 1);
+        // --vi K: every K-th run has virtual inventories (does not consume randomness: the default
+        // histories are unchanged)
+        let vi = vi_every > 0 && run % vi_every == vi_every - 1;
+        let reset = json!({"op": "reset", "d": D, "fp": fp, "bp": bp, "fe": fe, "ip": ip, "vi": vi});
+        let mut w = World::<D>::new_vi(Cfg::presets(D, fp, bp, fe, ip), run + 1, vi);
         let long_is_index = !rng.chance(1, 4);
         let mut script: Vec<Value> = vec![reset, json!({"op": "init"})];
         let smin = *rng.pick(&[1u64, 1, 2]);
@@ -913,11 +1083,12 @@ fn run_replay(a: &Args) {
             dead = false;
             let d = gu(&op, "d").max(1) as u8;
             let cfg = Cfg::presets(d, gu(&op, "fp"), gu(&op, "bp"), gu(&op, "fe"), gu(&op, "ip"));
+            let vi = gb(&op, "vi");
             if d == 2 {
-                w2 = Some(World::<2>::new(cfg, run));
+                w2 = Some(World::<2>::new_vi(cfg, run, vi));
                 w1 = None;
             } else {
-                w1 = Some(World::<1>::new(cfg, run));
+                w1 = Some(World::<1>::new_vi(cfg, run, vi));
                 w2 = None;
             }
             continue;
